@@ -5,6 +5,7 @@ from ..engine.loader import Unknown
 from ..engine.sym import is_sym
 from ..rules.world import STATE, DOT, REL, Shapes, eager_interp
 from . import c01
+from . import c03
 
 EXPLANATION = (
     "R1: Instruction.compile_insn is abstractly executed for every folded table row; the rel_address handed to operand j "
@@ -185,6 +186,4 @@ def run(ck):
     ck.run_rule("C04.R2", "relative / relative-deferred displacement words", 4, rule_R2)
     ck.run_rule("C04.R3", "branch/SOB displacement: accept set, parity, field value (cells over all integers)", 8, rule_R3)
     ck.run_rule("C04.R4", "bare numeric operands are local labels", 1, rule_R4)
-
-
-LEVEL = None
+    ck.run_rule("C03.R7", "address arithmetic behind PC-relative targets (LinearPolynomial algebra)", 18, c03.rule_R7)
